@@ -78,6 +78,13 @@ TWINS = [
     ("schema.list(schema.int)", "[1, 1, 1]"), ("schema.list(schema.str)", "['a', 'a']"),
     ("schema.list(schema.any(schema.str, schema.bytes))", "['a', b'a']"),
     ("schema.dict({'a': schema.any(schema.int, schema.float), 'b': schema.any(schema.int, schema.float)})", "{'a': 1, 'b': 1.0}"),
+    # placeholders meeting length bounds / untyped containers: the result must stay usable
+    ("schema.list(schema.int).len(2, ...)", "[1, ...]"), ("schema.list(schema.int).len(3, 5)", "[..., 1, 2]"),
+    ("schema.list(schema.int).len(2)", "[1, ...]"), ("schema.list.len(2, ...)", "[..., 'x']"), ("schema.list.len(..., 3)", "[1, ...]"),
+    ("schema.list(schema.str).len(1, 4)", "[..., 'a', 'b']"), ("schema.dict", "{'a': ..., 'b': 1}"),
+    ("schema.dict({...: ...})", "{'zz': ..., ...: ...}"), ("schema.dict({...: ...})", "{'zz': ...}"),
+    ("schema.dict({'a': schema.list(schema.int).len(2, ...)})", "{'a': [1, ...]}"),
+    ("schema.any(schema.list(schema.int).len(2, ...), schema.dict)", "[1, ...]"), ("schema.any", "..."),
 ]
 
 
@@ -87,6 +94,8 @@ def make_cases(ctx, n_schemas, depth, plain_only=False, zoo_rate=0.2, opts=None)
     for ssrc, vsrc in TWINS:
         c = SCase()
         c.ssrc, c.schema, c.value, c.origin = ssrc, gen.build(ssrc), eval(vsrc, dict(gen.NS)), "twins"
+        if plain_only and not pyspec.is_plain(c.value):
+            continue
         c.unmodelled = None
         cases.append(c)
     for _ in range(n_schemas):
